@@ -1296,7 +1296,7 @@ def build_plan(tier, seed):
         pl.names_fixed()
         pl.solo_cfgs()
         pl.pairwise(1 << 30)
-        pl.many_enums(1100)
+        pl.many_enums(530)        # (more derives in ONE crate make rustc itself superlinear: 1 100 took over 45 min)
         pl.all_reprs()
         pl.huge_sparse_cfgs()
         pl.raw_idents()
